@@ -47,8 +47,8 @@ Fixpoint wf (v : val) (t : ty) {struct v} : bool :=
   | _, TDyn allowed count =>
     match kind_of v with
     | Some (DScal k) =>
-      (* Dynamic.decode has no JIS-8 entry (DESIGN 11) *)
-      allowed_has allowed (DScal k) && negb (skind_eqb k KJis) && wf_scal k count v
+      (* (Dynamic.decode has its JIS-8 entry since D45) *)
+      allowed_has allowed (DScal k) && wf_scal k count v
     | _ => false
     end
   | _, _ => false
